@@ -32,6 +32,7 @@ import (
 	"encoding/json"
 	"fmt"
 	"hash/crc32"
+	"io"
 	"net"
 	"os"
 	"os/exec"
@@ -1357,7 +1358,7 @@ func frameAnalyse(res *frameResult, ciph frameCipher, key []byte, cfg frameCfg, 
 			res.Monitors["nonce-fresh"]++
 			n := string(fi.plain[:ciph.ns])
 			if j, dup := nonces[n]; dup {
-				res.violate("frame-nonce-reuse", fmt.Sprintf("datagram %d reuses the nonce of datagram %d", ci, j), detail())
+				res.violate("frame-nonce-reuse", fmt.Sprintf("datagram %d (%s > %s) reuses the nonce of datagram %d (%s > %s): %d sessions share the key in this run", ci, c.from, c.to, j, caps[j].from, caps[j].to, 2*len(clients)), detail())
 			}
 			nonces[n] = ci
 		}
@@ -1698,6 +1699,10 @@ func frameScenarios(rng *vrng, prop string) []frameCfg {
 			f := frameFecs[1+i%4]
 			add(frameCfg{Cipher: rng.intn(nc), D: f[0], P: f[1], MtuKind: 2, Pattern: 2, OOBMode: 1, Script: 1})
 		}
+		for i := 0; prop == "C09" && i < 12; i++ { // crowds: 16 sessions of one listener, one key, all sending at once
+			f := frameFecs[i%len(frameFecs)]
+			add(frameCfg{Cipher: 1 + i%(nc-1), D: f[0], P: f[1], MtuKind: 2, Pattern: 2, OOBMode: 1, Clients: 16})
+		}
 		for i := 0; i < 40; i++ { // extra random cells, all patterns
 			l, d := lossOf()
 			f := frameFecs[rng.intn(len(frameFecs))]
@@ -1729,6 +1734,9 @@ func frameScenarios(rng *vrng, prop string) []frameCfg {
 		}
 		c.Slow = i%15 == 7
 		c.Flood = prop == "C19" && i%12 == 3
+		if prop == "C09" && i%25 == 11 { // a crowd: 12 sessions of one listener, one key, all sending at once
+			c = frameCfg{Cipher: 1 + (i/25+rot)%(nc-1), D: c.D, P: c.P, MtuKind: 2, Pattern: 2, OOBMode: c.OOBMode, Clients: 12}
+		}
 		if prop == "C10sess" && i >= n-4 { // directed: a FEC group straddling an accepted, smaller MTU
 			f := frameFecs[1+i%4]
 			c = frameCfg{Cipher: c.Cipher, D: f[0], P: f[1], MtuKind: 2, Pattern: 2, OOBMode: 1, Script: 1}
@@ -1741,6 +1749,68 @@ func frameScenarios(rng *vrng, prop string) []frameCfg {
 		add(c)
 	}
 	return out
+}
+
+// frameNonceStress: the package's nonce source as the sessions use it - fillRand on the process-wide
+// generator - drawn concurrently by many goroutines (every session's postProcess goroutine does
+// exactly this); all values of a run must be pairwise distinct.  Each entropy implementation the
+// package offers is installed through SetEntropy in turn.
+func frameNonceStress(rep *vreport, keys map[string]bool) {
+	goroutines, draws := 8, 150000
+	if vThorough() {
+		goroutines, draws = 16, 500000
+	}
+	orig := entropy
+	defer SetEntropy(orig)
+	type gen struct {
+		name string
+		mk   func() io.Reader
+		size int
+	}
+	gens := []gen{
+		{"default(NewEntropy)", func() io.Reader { return orig }, 16},
+		{"default(NewEntropy), 12-byte AEAD nonces", func() io.Reader { return orig }, 12},
+		{"NewEntropyAES", NewEntropyAES, 16},
+		{"NewEntropyChacha8", NewEntropyChacha8, 16},
+	}
+	for _, g := range gens {
+		SetEntropy(g.mk())
+		all := make([][16]byte, goroutines*draws)
+		var wg sync.WaitGroup
+		start := make(chan struct{})
+		for gi := 0; gi < goroutines; gi++ {
+			wg.Add(1)
+			go func(mine [][16]byte) {
+				defer wg.Done()
+				<-start
+				for i := range mine {
+					fillRand(mine[i][:g.size])
+				}
+			}(all[gi*draws : (gi+1)*draws])
+		}
+		close(start)
+		wg.Wait()
+		sort.Slice(all, func(i, j int) bool { return bytes.Compare(all[i][:], all[j][:]) < 0 })
+		repeats, first := 0, ""
+		for i := 1; i < len(all); i++ {
+			if all[i] == all[i-1] {
+				repeats++
+				if first == "" {
+					first = hx(all[i][:g.size])
+				}
+			}
+		}
+		rep.Cases++
+		rep.Steps += len(all)
+		rep.Monitors["nonce-generator-distinct"] += len(all)
+		rep.Distribution["nonce-stress-draws"] += len(all)
+		if repeats > 0 {
+			rep.violate("nonce-generator-repeats", fmt.Sprintf("entropy source %s: %d goroutines x %d fillRand draws of %d bytes returned %d repeated values (first: %s)", g.name, goroutines, draws, g.size, repeats, first),
+				map[string]any{"generator": g.name, "goroutines": goroutines, "draws_each": draws, "nonce_bytes": g.size, "repeats": repeats, "first_repeated": first})
+		} else {
+			rep.Nontrivial++
+		}
+	}
 }
 
 // frameSpawn runs one scenario in a child process (the test binary re-executed): a panic inside a
@@ -1892,6 +1962,10 @@ func frameRunAll(t *testing.T, prop string, keys map[string]bool) {
 	lg.printf("%s", encLog.String())
 	rep.Steps += encSteps
 
+	if prop == "C09" {
+		frameNonceStress(rep, keys)
+	}
+
 	t.Run("sessions", func(t *testing.T) {
 		for i := range cfgs {
 			cfg := cfgs[i]
@@ -1959,7 +2033,7 @@ func frameRunAll(t *testing.T, prop string, keys map[string]bool) {
 
 func TestVerifC09(t *testing.T) {
 	frameRunAll(t, "C09", map[string]bool{
-		"frame-layout": true, "frame-duplicate-datagram": true, "frame-nonce-reuse": true,
+		"frame-layout": true, "frame-duplicate-datagram": true, "frame-nonce-reuse": true, "nonce-generator-repeats": true,
 		"fec-id-cycle": true, "parity-not-rs": true, "stream-stalled": true, "stream-corrupted": true,
 	})
 }
